@@ -177,6 +177,32 @@ def gen_matrix_graph(rng, cap=1500):
                             M[a][b] = rng.randrange(mod)
                         mats.append(M)
             central = [rng.randrange(mod) for _ in range(n * m)]
+        elif r < 0.78:
+            # finite-order integer matrices with entries -1, 0, 1 under moduli at every threshold where a float / narrow-integer shortcut
+            # stops being exact; residues m-1, m-2 in generators AND states, so that sums of several near-m^2 products occur
+            import math as _m
+            mod = rng.choice([2**24 - 3, 2**24 + 1, 2**26 - 5, 2**26, 6 * 10**7, 94906266, 94906267, int(_m.isqrt(2**53 // 2)) - 1, int(_m.isqrt(2**53 // 3)) + 2,
+                              10**8 + 7, 2**30 + 3, 2**31 - 1, 2**31])
+            base2 = [[[-1, -1], [1, 0]], [[0, 1], [1, 0]], [[0, -1], [1, 0]], [[1, 1], [-1, 0]], [[-1, 0], [0, -1]], [[0, -1], [-1, 0]]]
+            n = rng.choice([2, 2, 3])
+            k = rng.randint(1, 3)
+            mats = []
+            for _ in range(k):
+                B = rng.choice(base2)
+                if n == 2:
+                    M = [list(row) for row in B]
+                else:
+                    pos = rng.choice([0, 1])
+                    M = [[0] * 3 for _ in range(3)]
+                    idx = [pos, pos + 1]
+                    other = 3 - sum(idx)
+                    for a in range(2):
+                        for b in range(2):
+                            M[idx[a]][idx[b]] = B[a][b]
+                    M[other][other] = rng.choice([1, -1])
+                mats.append([[v % mod for v in row] for row in M])
+            m = rng.choice([1, 1, 2])
+            central = [rng.choice([mod - 1, mod - 2, 1, 2, rng.randrange(mod)]) for _ in range(n * m)]
         elif r < 0.85:
             mod = rng.choice([2**31 - 1, 2**31])
             k = rng.randint(1, 2)
@@ -290,6 +316,23 @@ def gen_colliding_coset(rng, cap=1500):
     return gen_perm_graph(rng, cap)
 
 
+def gen_label_boundary(rng, cap=1500):
+    """Sequences whose largest label is 9, 10 or 11 (one- and two-digit labels meet): a marked element of that value and a second mark,
+    under shift / swap generators; orbits of about n^2 states."""
+    for _ in range(50):
+        top = rng.choice([9, 10, 10, 11, 12])
+        n = top + 1 + rng.randint(0, 2)
+        gens = [[(i + 1) % n for i in range(n)], [(i - 1) % n for i in range(n)], [1, 0] + list(range(2, n))]
+        central = [0] * n
+        a, b = rng.sample(range(n), 2)
+        central[a], central[b] = top, rng.choice([1, 1, 10, 9])
+        central[b] = min(central[b], top)
+        gd = {"kind": "perm", "gens": gens, "central": central}
+        if ref_bfs(gd, [central], cap) is not None:
+            return gd
+    return gen_perm_graph(rng, cap)
+
+
 def gen_graph(rng, cap=1500):
     """Mostly graphs with a non-trivial orbit (>= 12 vertices, >= 4 layers); a quarter are unconstrained (tiny orbits included)."""
     want_big = rng.random() < 0.75
@@ -302,8 +345,10 @@ def gen_graph(rng, cap=1500):
             gd = gen_perm_graph(rng, cap, multiword=True)
         elif r < 0.74:
             gd = gen_deep_directed(rng, cap)
-        elif r < 0.78:
+        elif r < 0.77:
             gd = gen_repeated_closed(rng, cap)
+        elif r < 0.79:
+            gd = gen_label_boundary(rng, cap)
         else:
             gd = gen_matrix_graph(rng, cap)
         if not want_big:
@@ -346,7 +391,7 @@ def gen_config(rng, gd):
         cfgd["bit_encoding_width"] = rng.choice(["auto", None])
     cfgd["batch_size"] = rng.choice([1, 2, 3, 7, 2**20, 2**20])
     cfgd["hash_chunk_size"] = rng.choice([1, 3, 2**25, 2**25])
-    cfgd["random_seed"] = rng.choice([0, 1, 7, 12345, rng.randrange(1, 2**40)])      # 0 is a seed like any other
+    cfgd["random_seed"] = rng.choice([0, 0, -1, -2, 1, 7, 12345, rng.randrange(1, 2**40)])      # 0 and negative numbers are seeds like any other
     return cfgd
 
 
